@@ -71,7 +71,7 @@ def finish(S, tier, extra_outside=None):
     out_viol = []
     for v in S.violations:
         key = '%s:%s%s' % (v['query'], vtlib.wire(v['a']), (',' + vtlib.wire(v['b'])) if v['b'] else '')
-        conf = S.confirm(v)
+        conf = {'request': v.get('native_request'), 'answer': v.get('native_answer')} if v.get('confirmed') else S.confirm(v)
         what = '%s fails for a=%s%s (%s)' % (v['query'], vtlib.wire(v['a']),
                                                (' b=' + vtlib.wire(v['b'])) if v['b'] else '', v['statement'])
         if key in known or ('query:' + v['query']) in known:
